@@ -120,6 +120,11 @@ def vote_lemma(sym, tier):
         if me._current_term < last_term:
             r.bad("raft_term_never_decreases", last_term, me._current_term)
         last_term = me._current_term
+        # R is inductive over message handling
+        if me._state != RaftState.FOLLOWER and (me._current_term < 1 or me._voted_for != me.name):
+            r.bad("raft_candidate_or_leader_has_voted_for_itself", {"state": me._state.name, "term": me._current_term, "voted_for": me._voted_for, "after": kind})
+        if me._log.last_index and me._log.last_term > me._current_term:
+            r.bad("raft_log_terms_never_exceed_current_term", me._log.last_term, me._current_term)
     for t, who in grants.items():
         if len(who) > 1:
             r.bad("raft_one_vote_per_term", {"term": t, "granted_to": sorted(who)})
